@@ -102,6 +102,12 @@ CLAIMED["C18"] = dict(text="Bounded symbolic model checking of the real build-fi
                   "assignment of atoms to new residues, and of AnnotateLigands attach/hand-back.",
              design="DESIGN.md 4/C18", technique="symbolic execution of the real Python code with z3 (symx): symbolic range bounds concretised by solver-driven forking, selectors for specifications",
              note="ranges within 0..4 (quick) / 0..6 (thorough); names from a fixed set (no '#'/'-' inside names, no arbitrary unicode: the planned CrossHair string run is not included); placement of ligands is C05/C17. " + NOTE_COMMON)
+CLAIMED["C03"] = dict(text="Bounded symbolic model checking as four lemmas on the real code: the body of gen_coords with its heavy stages stubbed and symbolic box "
+                  "vectors (box precedence, written box, stage order), BuildSystem.__init__/_compute_box_size with symbolic masses and density (cubic box, "
+                  "edge^3 = 1.660541 M / rho up to the rounding), the real reader + convert_to_vermouth_system + vermouth write_gro over symbolic [ molecules ] "
+                  "counts and names (atom order, numbering, names, own coordinates, box line), and completeness of positions under every failure schedule.",
+             design="DESIGN.md 4/C03", technique="symbolic execution of the real Python code with z3 (symx): symbolic reals for box/mass/density (QF_NRA), symbolic counts, symbolic failure schedules",
+             note="gen_coords is not executed end to end symbolically: the lemmas compose through its real control flow under stubs; finiteness of numbers produced by scipy is assumed; -grid file parsing and .pdb input are outside. " + NOTE_COMMON)
 NOT_YET = {}
 def main():
     props = [json.loads(l) for l in open(os.path.join(ROOT, "properties.jsonl"))]
